@@ -86,8 +86,44 @@ pub fn strategy() -> impl Strategy<Value = Case> {
 		})
 }
 
+/// A TCP port that is free now and unlikely to be taken by anybody else before it is used:
+/// outside the kernel's ephemeral range (32768..60999), spread by process id and a counter.
 pub fn free_port() -> u16 {
+	static CTR: std::sync::atomic::AtomicUsize = std::sync::atomic::AtomicUsize::new(0);
+	for _ in 0..200 {
+		let n = CTR.fetch_add(1, std::sync::atomic::Ordering::SeqCst);
+		let cand = 20000 + ((std::process::id() as usize * 131 + n * 17) % 10000) as u16;
+		if std::net::TcpListener::bind(("127.0.0.1", cand)).is_ok() && std::net::TcpListener::bind(("::1", cand)).is_ok() {
+			return cand;
+		}
+	}
 	std::net::TcpListener::bind("127.0.0.1:0").and_then(|l| l.local_addr()).map(|a| a.port()).unwrap_or(5001)
+}
+
+/// does process `pid` own a listening TCP socket on `port`? (/proc/net/tcp{,6} + /proc/<pid>/fd)
+pub fn pid_listens_on(pid: u32, port: u16) -> bool {
+	let mut inodes = vec![];
+	for f in ["/proc/net/tcp", "/proc/net/tcp6"] {
+		if let Ok(t) = std::fs::read_to_string(f) {
+			for l in t.lines().skip(1) {
+				let c: Vec<&str> = l.split_whitespace().collect();
+				if c.len() > 9 && c[3] == "0A" && c[1].rsplit(':').next().and_then(|h| u16::from_str_radix(h, 16).ok()) == Some(port) {
+					inodes.push(c[9].to_string());
+				}
+			}
+		}
+	}
+	if let Ok(rd) = std::fs::read_dir(format!("/proc/{pid}/fd")) {
+		for e in rd.flatten() {
+			if let Ok(t) = std::fs::read_link(e.path()) {
+				let t = t.display().to_string();
+				if inodes.iter().any(|i| t == format!("socket:[{i}]")) {
+					return true;
+				}
+			}
+		}
+	}
+	false
 }
 
 pub struct Tacd {
@@ -98,11 +134,26 @@ pub struct Tacd {
 /// starts the shipped tacd in the foreground and waits until it accepts connections
 #[allow(clippy::too_many_arguments)]
 pub fn start_tacd(tacd: &Path, dir: &Path, case_domain: &str, ext: &str, domain_via: &str, ext_via: &str, key_type: &Option<String>, cert_digest: &Option<String>, unix: bool) -> Result<Tacd, String> {
+	// the chosen port can be taken by an unrelated process between the probe and tacd's bind: try again then
+	let mut last = String::new();
+	for _ in 0..5 {
+		match start_tacd_once(tacd, dir, case_domain, ext, domain_via, ext_via, key_type, cert_digest, unix) {
+			Ok(t) => return Ok(t),
+			Err(e) if e.contains("Address already in use") => last = e,
+			Err(e) => return Err(e),
+		}
+	}
+	Err(format!("harness could not find a free port: {last}"))
+}
+
+#[allow(clippy::too_many_arguments)]
+fn start_tacd_once(tacd: &Path, dir: &Path, case_domain: &str, ext: &str, domain_via: &str, ext_via: &str, key_type: &Option<String>, cert_digest: &Option<String>, unix: bool) -> Result<Tacd, String> {
+	let mut port = 0u16;
 	let (listen, target) = if unix {
 		let p = dir.join("t.sock");
 		(format!("unix:{}", p.display()), Target::Unix(p.display().to_string()))
 	} else {
-		let port = free_port();
+		port = free_port();
 		(format!("127.0.0.1:{port}"), Target::Tcp(format!("127.0.0.1:{port}")))
 	};
 	let mut args: Vec<String> = vec!["-f".into(), "--no-pid-file".into(), "--log-stderr".into(), "--listen".into(), listen];
@@ -147,7 +198,8 @@ pub fn start_tacd(tacd: &Path, dir: &Path, case_domain: &str, ext: &str, domain_
 	let mut daemon = Daemon::spawn_with_stdin(&opts, Some(&stdin_path))?;
 	let t0 = Instant::now();
 	loop {
-		if tlsclient::can_connect(&target) {
+		// tcp: the listening socket must be tacd's own (not somebody else's on the same port)
+		if if unix { tlsclient::can_connect(&target) } else { pid_listens_on(daemon.pid(), port) } {
 			break;
 		}
 		if daemon.state() != ProcState::Alive {
